@@ -1,7 +1,7 @@
 SPECIFICATION Spec
 CONSTANTS
   LO = 2501
-  HI = 12000
+  HI = 9000
   NS <- Dom
 INVARIANTS FormInv NoDivZero PBound NoUnderflow ResultProper FnAgrees
 CHECK_DEADLOCK FALSE
